@@ -39,7 +39,8 @@ type Stats struct {
 	Lost, Reload                                int
 	OutSigned, OutErr                           map[string]int
 	DistinctNontrivial                          int
-	WriteFail, ReleasedWithoutRecord            int // requests during which the state file could not be written / of those, answered with a signature
+	WriteFail, ReleasedWithoutRecord            int
+	SurvivedWriteFailure                        int // write failures after which the signer went on running (it reported an error instead of stopping) // requests during which the state file could not be written / of those, answered with a signature
 	Samples                                     []string
 }
 
@@ -168,8 +169,10 @@ func genCase(rng *rand.Rand, st *Stats) []Op {
 			if kind == "req" && rng.Intn(12) == 0 {
 				// the write of the state file fails: nothing is signed, the shadow does not move; the
 				// same height/round/step is then asked again with another content
-				ops = append(ops, Op{"fail", q}, Op{"req", Req{h, r, s, (q.Content + 1) % 4, ts + 1}})
-				ch, cr, cs, cc, signed = h, r, s, (q.Content+1)%4, true
+				// ... then the same request once more (a retry), a restart, and another content at that height/round/step
+				ops = append(ops, Op{"fail", q}, Op{"req", Req{h, r, s, q.Content, ts + 1}}, Op{Kind: "reload"}, Op{"req", Req{h, r, s, (q.Content + 1) % 4, ts + 2}})
+				ts += 2
+				ch, cr, cs, cc, signed = h, r, s, q.Content, true
 				st.WriteFail++
 				st.Fresh++
 				continue
@@ -285,14 +288,23 @@ func Generate(seed int64, nCases int, outPath string, scratch string, jsonPath s
 				// from the files.  A signature that is released nevertheless is recorded as such.
 				away := dir + ".away"
 				out := "ONone"
+				died := true
 				if err := os.Rename(dir, away); err == nil {
-					if o2 := doReq(pv, o.Req); strings.HasPrefix(o2, "OSigned") && !strings.HasPrefix(o2, "OSigned (-") {
+					o2 := doReq(pv, o.Req)
+					if strings.HasPrefix(o2, "OSigned") && !strings.HasPrefix(o2, "OSigned (-") {
 						out = o2
 						st.ReleasedWithoutRecord++
 					}
+					// the unchanged signer panics (the process is gone); a signer that merely reports an error
+					// lives on with whatever it holds in memory, and is NOT restarted here
+					died = o2 == "OSigned (-3)"
 					_ = os.Rename(away, dir)
 				}
-				pv = rcrypto.LoadSFilePV(keyFile, stateFile, nil)
+				if died {
+					pv = rcrypto.LoadSFilePV(keyFile, stateFile, nil)
+				} else {
+					st.SurvivedWriteFailure++
+				}
 				outS = append(outS, out)
 			default:
 				pv = rcrypto.LoadSFilePV(keyFile, stateFile, nil)
